@@ -43,7 +43,8 @@ ASSUMPTIONS = [
 ]
 BUDGET = {"quick": 60, "thorough": 1200}
 
-MARKER_RE = re.compile(r"^([-*+>]|#+|[0-9]+[.)])$")
+MARKER_RE = re.compile(r"^([-*+]|>.*|#+|[0-9]+[.)]|-{2,}|=+|\*{3,}|_{3,}|`{3,}[^`]*|~{3,}.*)$")
+RULE_RE = re.compile(r"^(-{3,}|\*{3,}|_{3,})$")
 LENS = (1, 2, 3, 5, 9)
 HAZ = ["-", "+", "*", ">", "#", "##", "1.", "2)", "10.", "---", "***", "===", "```", "~~~", "|", "[x]", "+1", "#tag", "1.x", "-x"]
 PLAINW = ["a", "it", "the", "alpha", "Gamma,", "word.", "longerword", "Supercalifragilistic", "42", "3.14", "e.g.", "naïve", "中文", "x=y", "(p)", "end.", "done!"]
@@ -79,8 +80,11 @@ def scan_lines(bodies: list[str], tokens: list[str], markdown: bool) -> tuple[li
                 em = t
             else:
                 esc = None
-                if markdown and pos == 0 and i > 0 and MARKER_RE.match(t):
-                    cands = ["\\" + t, t[:-1] + "\\" + t[-1]]
+                if markdown and pos == 0 and MARKER_RE.match(t) and (i > 0 or RULE_RE.match(t)):
+                    # backslash protection of a line-leading marker: before the word, before its final . or ),
+                    # before every character of a rule/underline word, or before every character of a fence run
+                    run = len(t) - len(t.lstrip(t[0])) if t[0] in "`~" else 0
+                    cands = ["\\" + t, t[:-1] + "\\" + t[-1], "".join("\\" + c for c in t), "".join("\\" + c for c in t[:run]) + t[run:]]
                     esc = next((c for c in cands if body.startswith(c, pos)), None)
                 if esc is None:
                     return None, f"line {i} col {pos}: expected token {t!r}, found {body[pos:pos + len(t) + 4]!r}"
